@@ -36,13 +36,24 @@ var c03Modes = []string{"strict", "relaxed", "nolinks", "fn-dagcbor", "fn-cbor",
 
 // c03Reader serves the input through one of the reader kinds a decoder meets in practice, chosen by a
 // deterministic function of the input: *bytes.Reader (an io.ByteReader), the same hidden behind a plain
-// io.Reader, an io.TeeReader (what LinkSystem.Load hands a codec), and one byte per Read.
+// io.Reader, an io.TeeReader (what LinkSystem.Load hands a codec), one byte per Read, a reader that idles once —
+// (0, nil) — between the last byte and io.EOF, one that delivers its last bytes together with io.EOF, and one that idles after every third byte.
 func c03Reader(b []byte) io.Reader {
 	k := len(b)
 	if len(b) > 0 {
 		k += int(b[len(b)-1])
 	}
-	switch k % 4 {
+	switch k % 7 {
+	case 6:
+		// an empty read after every third byte, in the middle of whatever the decoder is reading
+		return &idleEveryReader{b: b, every: 3}
+	case 4:
+		// all the data, then one Read that returns (0, nil) — "nothing happened", legal for an io.Reader (an empty
+		// write into a pipe, a transport that wakes up empty) — and only then io.EOF
+		return &idleAtEndReader{r: bytes.NewReader(b)}
+	case 5:
+		// the last bytes arrive together with io.EOF
+		return iotest.DataErrReader(bytes.NewReader(b))
 	case 1:
 		return struct{ io.Reader }{bytes.NewReader(b)}
 	case 2:
@@ -51,6 +62,49 @@ func c03Reader(b []byte) io.Reader {
 		return iotest.OneByteReader(bytes.NewReader(b))
 	}
 	return bytes.NewReader(b)
+}
+
+type idleAtEndReader struct {
+	r    *bytes.Reader
+	idle bool
+}
+
+func (r *idleAtEndReader) Read(p []byte) (int, error) {
+	if r.r.Len() == 0 && !r.idle {
+		r.idle = true
+		return 0, nil
+	}
+	return r.r.Read(p)
+}
+
+type idleEveryReader struct {
+	b     []byte
+	every int
+	n     int
+}
+
+func (r *idleEveryReader) Read(p []byte) (int, error) {
+	if len(r.b) == 0 {
+		return 0, io.EOF
+	}
+	if r.n == r.every {
+		r.n = 0
+		return 0, nil
+	}
+	if len(p) == 0 {
+		return 0, nil
+	}
+	k := r.every - r.n
+	if k > len(p) {
+		k = len(p)
+	}
+	if k > len(r.b) {
+		k = len(r.b)
+	}
+	copy(p, r.b[:k])
+	r.b = r.b[k:]
+	r.n += k
+	return k, nil
 }
 
 func c03NoLinks(mode string) bool {
